@@ -12,14 +12,13 @@ LEAN_MODULE = "UralModel.Props.C18"
 P = "Ural.Props.C18."
 THEOREMS = [P + n for n in [
     "pySearch_spec",
-    "site_pattern_spec_partial",
+    "site_pattern_spec",
     "site_pattern_spec_newline",
     "underPattern_literal",
-    "is_facebook_url_spec_partial",
-    "is_twitter_url_spec_partial",
-    "is_instagram_url_spec_partial",
-    "is_telegram_url_spec_partial",
-    "excluded_region_witness",
+    "is_facebook_url_spec",
+    "is_twitter_url_spec",
+    "is_instagram_url_spec",
+    "is_telegram_url_spec",
     "site_case_insensitive",
     "trieOf_eq",
     "trie_match_spec",
@@ -52,6 +51,7 @@ TABLE_OBLIGATIONS = [P + n for n in [
     "twitter_table_ok",
     "instagram_table_ok",
     "telegram_table_ok",
+    "site_flags_ascii",
     "l_path_table_ok",
     "homepage_table_ok",
 ]]
@@ -60,7 +60,7 @@ RULE = (
     "should-resolve domains, the instances of the facebook / twitter / instagram / telegram hostname patterns — "
     "as is, ASCII-upper-cased, with extra leading labels, with letters glued in front of its first label, with a "
     "letter glued behind its last label, followed by a foreign registrable domain, prefixed with 'l.', with its "
-    "first dot replaced, in punycode, or with a re.IGNORECASE-only look-alike letter) together with decoy texts "
+    "first dot replaced, in punycode, or with a look-alike letter that only re.IGNORECASE without re.ASCII identifies with an ASCII one) together with decoy texts "
     "(userinfo, port, path, query, fragment holding site domains). From it the URL rest = [ui@]H[:port]path[?q][#f] "
     "is spelled http://rest, https://rest, rest, //rest and as the SplitResult of the first two, plus three "
     "baselines (http://H/, http://H+path, http://example.org+path, https://u@localhost:8080+path?v=a.pdf#w.html). Every predicate is run on every spelling by "
@@ -87,14 +87,12 @@ TRUSTED = [
 ]
 ASSUMPTIONS = [
     "arguments are str or SplitResult (no bytes); lone surrogates are outside the model",
-    "hostnames reaching the hostname regexes contain none of U+0130, U+0131, U+017F, U+212A for the *_spec_partial theorems (explicit hypothesis Plain; the excluded region is witnessed to fail and is the known finding KF-C18-1)",
     "trie-based predicates: listed domains and query hostnames are ordinary (not IP literals / localhost), as HostnameTrieSet documents; non-ASCII labels are lower-case and NFKC-stable",
 ]
 UNPROVED = (
-    "is_X_url_spec for X in facebook/twitter/instagram/telegram is proved only for hostnames without the four code "
-    "points that re.IGNORECASE folds onto ASCII letters (FullSiteSpec is false there: 'ınstagram.com', 'twıtter.com' "
-    "are flagged; witnessed in Lean, replayed on the implementation as KF-C18-1, patch notes/fixes/c18-ascii-casefold.diff). "
-    "Everything else of the statement is proved for the model; urlsplit / .hostname / splitext are modelled-not-verified."
+    "Nothing of the statement is left unproved for the model. urlsplit / SplitResult.hostname / os.path.splitext are "
+    "hand models (modelled-not-verified, compared on every case); str.lower / upper are the ASCII mappings of the model "
+    "(the trie-based predicates call Python's full str.lower on the hostname: exact on the generators' alphabet)."
 )
 
 # ---------------------------------------------------------------------------------------
@@ -354,6 +352,13 @@ CORPUS = [
     {"k": "raw", "urls": ["http://netflix.com", "http://notfacebook.com", "http://chat.me", "http://twitter.com.evil.fr", "http://fb.me.evil.fr/x", "http://myinstagram.com", "http://telegram.org.uk"]},
     # D44 / 8a8fa5b: unescaped dot
     {"k": "raw", "urls": ["http://instagramxcom/p/x/", "http://www.instagram-com/p/"]},
+    # dfca416 (KF-C18-1): re.I without re.ASCII folds U+0130/U+0131 onto i, U+017F onto s, U+212A onto k
+    {"k": "raw", "urls": ["http://tw\u0131tter.com", "http://\u0131nstagram.com/p/x", "http://in\u017ftagram.com", "http://www.tw\u0131tter.com/a?b#c", "tw\u0131tter.com"]},
+    {"k": "u", "site": "tw", "dom": "twitter.com", "var": "fold", "host": "tw\u0131tter.com", "ui": "", "port": "", "path": "/", "q": "", "f": ""},
+    {"k": "u", "site": "ig", "dom": "instagram.com", "var": "fold", "host": "\u0131nstagram.com", "ui": "a@twitter.com", "port": ":80", "path": "/abc123", "q": "u=bit.ly", "f": ""},
+    {"k": "u", "site": "ig", "dom": "instagram.com", "var": "fold", "host": "www.in\u017ftagram.com", "ui": "", "port": "", "path": "", "q": "", "f": "@fb.me"},
+    # oracle only (str.lower maps U+212A to k and U+0130 to i + U+0307: outside the model's ASCII case mapping)
+    {"k": "rawo", "urls": ["http://faceboo\u212a.com/x", "http://www.faceboo\u212a.fr", "http://\u212a.t.me/s", "http://tw\u0130tter.com", "http://\u0130nstagram.com", "HTTP://TWITTER.COM/\u0131"]},
     # 982c320: no hostname
     {"k": "raw", "urls": ["/some/path", "", "?q=1", "#f", "http:///x", "//", "mailto:x@y.z"]},
     {"k": "u", "site": "tw", "dom": "x.com", "var": "glue", "host": "netflix.com", "ui": "a@twitter.com", "port": "", "path": "/@t.me", "q": "u=bit.ly", "f": "youtube.com"},
@@ -429,7 +434,7 @@ def rest_of(c):
 
 def family(c):
     """(string urls, names)"""
-    if c["k"] == "raw":
+    if c["k"] in ("raw", "rawo"):
         return list(c["urls"])
     rest = rest_of(c)
     return ["http://" + rest, "https://" + rest, rest, "//" + rest,
@@ -439,7 +444,7 @@ def family(c):
 
 def presplit(c):
     """the urls that are also given pre-parsed (by the real urlsplit)"""
-    if c["k"] == "raw":
+    if c["k"] in ("raw", "rawo"):
         urls = [u if _re.match(r"^(?:[A-Za-z]{1,64}:)?//", u) else "http://" + u for u in c["urls"]]
     else:
         rest = rest_of(c)
@@ -491,6 +496,8 @@ def _puny(hosts):
 
 def ops(c):
     lib.ural()
+    if c["k"] == "rawo":
+        return []
     if c["k"] == "ext":
         return [{"f": "c18_splitext", "paths": c["paths"]}]
     urls = family(c)
@@ -536,6 +543,8 @@ def record(arg):
 
 def impl(c):
     lib.ural()
+    if c["k"] == "rawo":
+        return []
     if c["k"] == "ext":
         return [[list(posixpath.splitext(p)) for p in c["paths"]]]
     return [{"str": [record(u) for u in family(c)], "parsed": [record(s) for s in presplit(c)]}]
@@ -589,7 +598,7 @@ def oracle(c):
     if c["k"] == "ext":
         return None
     d = data()
-    if c["k"] == "raw":
+    if c["k"] in ("raw", "rawo"):
         for u in c["urls"]:
             try:
                 host, path = ohost_path(u)
@@ -653,14 +662,6 @@ def oracle(c):
     return None
 
 
-def kf_unicode_casefold(case, failure):
-    """the failing host holds U+0131 / U+017F (identified with i / s by re.IGNORECASE only) and one of the
-    four regex-based predicates flags it"""
-    if case.get("k") != "u" or not any(ch in case["host"] for ch in "ıſİK"):
-        return False
-    return any(SITE_ATTR[s][2] + "(" in failure for s in SITES) and "but the hostname" in failure
-
-
 def nontrivial(c):
     if c["k"] != "u":
         return None
@@ -671,7 +672,7 @@ def nontrivial(c):
 
 
 def classify(c):
-    if c["k"] == "raw":
+    if c["k"] in ("raw", "rawo"):
         return ["corpus-raw"]
     if c["k"] == "ext":
         return ["splitext"]
